@@ -205,7 +205,7 @@ def units(tier):
     return u
 
 
-BUDGET = {"quick": 240, "thorough": 2400}
+BUDGET = {"quick": 240, "thorough": 1200}
 UNIT_PATH_CAP = {"quick": 400, "thorough": 20000}
 BOUNDS = {
     "quick": "key clause: every proto identifier of length 1..4; value clause: catalogue S1 + 6 map shapes + 10 S2 shapes, values and sizes as C01; the emitted "
